@@ -335,6 +335,7 @@ func specProfile(r *vk.RNG) app.Profile {
 	p.BigValues = r.Chance(1, 4)
 	p.FixedSizes = r.Chance(1, 2)
 	p.CatchVariants = r.Chance(1, 2)
+	p.EarlyIncmp = r.Chance(1, 3)
 	return p
 }
 
